@@ -873,7 +873,7 @@ func (g *graph) compile(ctx context.Context, opt *graphCompileOptions) (*composa
 			sort.Strings(orphans)
 			return nil, fmt.Errorf("DAG invalid, node[%s] has no predecessor", orphans[0])
 		}
-		err := validateDAG(r.chanSubscribeTo, controlPredecessors)
+		err := validateDAG(r.chanSubscribeTo, controlPredecessors, dataPredecessors)
 		if err != nil {
 			return nil, err
 		}
@@ -1098,19 +1098,24 @@ func retypeStreamOutput(p *composableRunnable, conv handlerPair) *composableRunn
 	return &wrapper
 }
 
-func validateDAG(chanSubscribeTo map[string]*chanCall, controlPredecessors map[string][]string) error {
-	m := map[string]int{}
+// validateDAG rejects a graph whose nodes cannot be ordered: in all-predecessor mode a node waits for its control
+// predecessors to finish and for the values of its data predecessors (the data-only inputs of a workflow included), so
+// a cycle through either kind of connection can never run.
+func validateDAG(chanSubscribeTo map[string]*chanCall, controlPredecessors, dataPredecessors map[string][]string) error {
+	waitsFor := map[string]map[string]struct{}{}
 	for node := range chanSubscribeTo {
-		if edges, ok := controlPredecessors[node]; ok {
-			m[node] = len(edges)
-			for _, pre := range edges {
-				if pre == START {
-					m[node] -= 1
+		waitsFor[node] = map[string]struct{}{}
+		for _, pres := range [2][]string{controlPredecessors[node], dataPredecessors[node]} {
+			for _, pre := range pres {
+				if pre != START {
+					waitsFor[node][pre] = struct{}{}
 				}
 			}
-		} else {
-			m[node] = 0
 		}
+	}
+	m := map[string]int{}
+	for node, pres := range waitsFor {
+		m[node] = len(pres)
 	}
 	hasChanged := true
 	for hasChanged {
@@ -1118,17 +1123,8 @@ func validateDAG(chanSubscribeTo map[string]*chanCall, controlPredecessors map[s
 		for node := range m {
 			if m[node] == 0 {
 				hasChanged = true
-				for _, subNode := range chanSubscribeTo[node].controls {
-					if subNode == END {
-						continue
-					}
-					m[subNode]--
-				}
-				for _, subBranch := range chanSubscribeTo[node].writeToBranches {
-					for subNode := range subBranch.endNodes {
-						if subNode == END {
-							continue
-						}
+				for subNode, pres := range waitsFor {
+					if _, ok := pres[node]; ok {
 						m[subNode]--
 					}
 				}
